@@ -165,6 +165,42 @@ VFilter(v, T, k) ==
   IF HasRecOrUnion(T) \/ HasStrT(T) \/ HasAnyOpt(T) \/ HasRegT(T) \/ T.k = "unknown" THEN Unspec
   ELSE Ok(VList(FilterE(v.xs, T, k)))
 
+\* ---------------------------------------------------------------- ak.cartesian([x, x], axis=1): itertools.product per list, as pairs (C07)
+VCartSelf(v, T) ==
+  IF T.k \notin {"var", "reg"} THEN Unspec
+  ELSE Ok(VList([k \in 1..Len(v.xs) |->
+                   LET xs == v.xs[k].xs IN
+                   VList(Flat([i \in 1..Len(xs) |-> [j \in 1..Len(xs) |-> VRec(<<"0", "1">>, <<xs[i], xs[j]>>)]]))]))
+
+\* ---------------------------------------------------------------- ak.with_field(x, x[key], new): every record gains (or replaces) a field (C10)
+RECURSIVE WithFieldE(_, _, _, _)
+WithFieldE(e, T, key, new) ==
+  CASE T.k = "opt" -> IF IsNone(e) THEN VNone ELSE WithFieldE(e, T.x, key, new)
+    [] T.k \in {"var", "reg"} -> VList([k \in 1..Len(e.xs) |-> WithFieldE(e.xs[k], T.x, key, new)])
+    [] T.k = "rec" ->
+         LET w == e.vs[CHOOSE j \in 1..Len(e.ks) : e.ks[j] = key] IN
+         \* (ak.with_field puts a replaced field last; the C++ setitem_field of Session!SetFieldOp replaces in place)
+         LET keep == Indexes(e.ks, LAMBDA k : k # new) IN
+         VRec([q \in 1..Len(keep) |-> e.ks[keep[q]]] \o <<new>>, [q \in 1..Len(keep) |-> e.vs[keep[q]]] \o <<w>>)
+RecordAtEnd(T, key) ==       \* lists/options all the way down to ONE named record holding `key`
+  LET RECURSIVE go(_)
+      go(U) == CASE U.k \in {"var", "reg", "opt"} -> go(U.x)
+                 [] U.k = "rec" -> U.tup = 0 /\ \E j \in 1..Len(U.ks) : U.ks[j] = key
+                 [] OTHER -> FALSE
+  IN go(T)
+\* an option above the records and an option-type value: option broadcasting makes the RECORD missing where the value is
+OptAboveRecAndOptField(T, key) ==
+  LET RECURSIVE go(_, _)
+      go(U, seenopt) == CASE U.k = "opt" -> go(U.x, TRUE)
+                          [] U.k \in {"var", "reg"} -> go(U.x, seenopt)
+                          [] U.k = "rec" -> seenopt /\ U.xs[CHOOSE j \in 1..Len(U.ks) : U.ks[j] = key].k = "opt"
+                          [] OTHER -> FALSE
+  IN go(T, FALSE)
+VWithFieldSelf(v, T, key, new) ==
+  IF ~RecordAtEnd(T, key) THEN Unspec
+  ELSE IF OptAboveRecAndOptField(T, key) THEN Unspec
+  ELSE Ok(VList([k \in 1..Len(v.xs) |-> WithFieldE(v.xs[k], T, key, new)]))
+
 \* ---------------------------------------------------------------- unflatten(flatten(x, axis=1), num(x, axis=1)) = x   (C05)
 VUnflattenLaw(v, T) == IF T.k \in {"var", "reg"} THEN Ok(v) ELSE Unspec     \* "when x has no missing lists at that level"
 =============================================================================
